@@ -16,6 +16,7 @@ pub mod c13;
 pub mod c14;
 pub mod c15;
 pub mod c17;
+pub mod c18;
 pub mod common;
 
 pub const PROPERTIES: [&str; 18] = ["C01", "C02", "C03", "C04", "C05", "C06", "C07", "C08", "C09", "C10", "C11", "C12", "C13", "C14", "C15", "C16", "C17", "C18"];
@@ -37,6 +38,7 @@ pub fn clauses(property: &str) -> Vec<Clause> {
         "C14" => c14::clauses(),
         "C15" => c15::clauses(),
         "C17" => c17::clauses(),
+        "C18" => c18::clauses(),
         _ => vec![],
     }
 }
@@ -44,6 +46,7 @@ pub fn clauses(property: &str) -> Vec<Clause> {
 pub fn property_rule(property: &str) -> String {
     match property {
         "C01" => "composed chain vs stand-alone inner + stand-alone wrapper over Echo (bit-identical), Probe leaves for exactly-once in-order delivery, combining nodes present iff both children".into(),
+        "C18" => "live heap bytes owned by a view (counting allocator) at stream lengths L, 4L, 16L over seven stream classes; bound in the window lengths".into(),
         "C17" => "twins, repeated last(), clones with same and divergent continuations; bit-exact".into(),
         "C02" => "windowed view run in exact arithmetic (and f64) vs the batch definition over exactly the last N raw values, every step".into(),
         "C03" => "two runs of the same view on histories with different prefixes and a common suffix agree once K suffix values are consumed".into(),
@@ -72,6 +75,10 @@ pub fn property_assumptions(property: &str) -> Vec<String> {
             v.push("depth <= 3: the property is about one wrapper boundary; all pairs are enumerated, deeper trees are sampled".into());
             v.push("the moving average embedded in EFT / PFE sits over its own Echo and never sees raw input: its leaf is not a delivery probe".into());
             v.push("windows below a view's listed-finding threshold (CyberCycle, PFE < 3; EFT, Roofing < 2) are excluded by construction (they panic or diverge: C15)".into());
+        }
+        "C18" => {
+            v.push("the vcheck binary installs a counting global allocator; readings are per thread, the view is built, driven and dropped on one thread and the measuring loop allocates nothing itself".into());
+            v.push("'for ever' is explored to 16 L values (L = 8 sum(N) + 256; thorough 8 x that)".into());
         }
         "C17" => v.push("a tree containing Add cannot be cloned (Add does not implement Clone): the clone clause is skipped for it and counted".into()),
         "C02" => {
